@@ -618,6 +618,8 @@ func checkC20(c *Ctx) {
 		}
 	}
 
+	checkC20Default(c)
+
 	// ---- C20.guarded-add ----
 	rg := c.Rule("C20.guarded-add", "every additive DDL call in AutoMigrate is conditional on absence (and MigrateColumn on presence)", 6)
 	af := p.MethodDecl(pkgMigrator, "Migrator", "AutoMigrate")
